@@ -100,6 +100,23 @@ def write_evidence(prop, tier, seed, level, results, wall, extra, nviol):
             }
     except (OSError, ValueError):
         pass
+    try:
+        caught, quiet = [], []
+        with open(os.path.join(VERIF, "seeded", "RESULTS.tsv")) as f:
+            for line in f:
+                sid, pr, ec, sig = (line.rstrip("\n").split("\t") + ["", "", "", ""])[:4]
+                if pr == prop and ec == "1":
+                    caught.append(sid)
+        with open(os.path.join(VERIF, "seeded", "RESULTS_refactorings.tsv")) as f:
+            for line in f:
+                sid, pr, ec, sig = (line.rstrip("\n").split("\t") + ["", "", "", ""])[:4]
+                if pr == prop and ec == "0":
+                    quiet.append(sid)
+        cov.setdefault("sensitivity_last_recorded", {})
+        cov["sensitivity_last_recorded"]["independently_seeded_changes_caught_by_this_check"] = sorted(caught)
+        cov["sensitivity_last_recorded"]["independent_refactorings_this_check_stayed_quiet_on"] = sorted(quiet)
+    except (OSError, ValueError):
+        pass
     if prop == "C04":
         try:
             with open(os.path.join(VERIF, "crossval_report.json")) as f:
